@@ -32,16 +32,22 @@ def gen_program(rng, gl):
                     ins = sorted(pat[j + ref]) if rng.random() < 0.8 else rng.sample(alpha, rng.randrange(1, len(alpha)))
                     outs = [rng.choice(alpha) for _ in range(max(1, len(ins) - rng.choice((0, 0, 1))))]
                     al.append(('S', ref, ins, outs))
-                elif k < 0.55 and ln - pre > 1: al.append(('D',))
-                elif k < 0.65: al.append(('I', rng.choice(alpha)))
+                elif k < 0.53 and ln > 1:
+                    refs = [r for r in range(-j, ln - j) if r != 0]
+                    al.append(('C', rng.choice(refs)))
+                elif k < 0.60 and ln - pre > 1: al.append(('D',))
+                elif k < 0.68: al.append(('I', rng.choice(alpha)))
                 if rng.random() < 0.2 and ('D',) not in al: al.append(('A', rng.choice((0, 100, 777, 1500))))
                 if rng.random() < 0.1 and ('D',) not in al: al.append(('X', rng.choice((-50, 30, 200))))
+                if rng.random() < 0.2 and ('D',) not in al: al.append(('U', rng.randrange(2), rng.choice((1, 2, 7, -3))))
                 acts.append(al)
             if all(('D',) in al for al in acts):
                 acts[0] = [('G', rng.choice(alpha))]
             con = None
             if rng.random() < 0.35:
                 con = (rng.randrange(0, ln), rng.choice('lge'), rng.choice((0, 100, 462, 520, 751, 777, 1000, 1500)))
+            elif rng.random() < 0.3:
+                con = (rng.randrange(0, ln), rng.choice('lge'), rng.choice((0, 1, 2, 7, -3)), rng.randrange(2))      # a test on a user attribute
             ret = rng.choice((-1, -1, -2, -3, 1, 2)) if rng.random() < 0.25 else 0
             rules.append(dict(pre=pre, pat=pat, acts=acts, con=con, ret=ret))
         prog.append(dict(maxloop=rng.choice((1, 2, 3, 5)), rules=rules, alpha=alpha))
@@ -124,7 +130,7 @@ def run(chk):
             n = rng.choice((1, 2, 3, 5, 8, 12))
             gids = [rng.choice(alpha) if rng.random() < 0.85 else rng.choice(gl) for _ in range(n)]
             cid = 'q%d.%d' % (k, t)
-            cases.append(S.case_line(cid, p, [inv[g] for g in gids], 32, ops=('dump',)))
+            cases.append(S.case_line(cid, p, [inv[g] for g in gids], 32, ops=('dump', 'udump')))
             mcases.append('%s gdl %d %s %s %s' % (cid, nsub, text, advtab, ','.join(map(str, gids))))
             progs.append((p, text))
     _, il, _ = vlib.run_pair(None, w, cases, timeout=3000)
@@ -142,7 +148,9 @@ def run(chk):
                 chk.tie_break('compiler', 'the engine rejects a font compiled by fontkit: %s' % text[:300], c[:300])
             continue
         d = S.parse_dump(' '.join(i.split(' | ')[0].split()[1:]))
-        got = 'adv=%d ' % int(float(d['adv'].split(',')[0])) + ';'.join('%d,%d,%d,%d,%s' % (int(s[0]), int(float(s[10])), int(float(s[8])), int(float(s[9])), s[5]) for s in d['slots'])
+        us = (i.split(' | U', 1)[1].split(' | ')[0].split() if ' | U' in i else [])
+        got = 'adv=%d ' % int(float(d['adv'].split(',')[0])) + ';'.join('%d,%d,%d,%d,%s,%s' % (int(s[0]), int(float(s[10])), int(float(s[8])), int(float(s[9])), s[5], (us[k] if k < len(us) else '?').replace(',', '/'))
+                                                                        for k, s in enumerate(d['slots']))
         exp = m.split(' R ', 1)[1] if ' R ' in m else '?'
         stats['compared'] = stats.get('compared', 0) + 1
         classes.add((text.count('/'), text.count(';') > 2, len(d['slots']), 'D' in text, 'I' in text, 'S' in text, 'T' in text, any(s[5] != '-1' for s in d['slots']), got == exp))
@@ -153,8 +161,8 @@ def run(chk):
     chk.notes.append('programs x strings: %s' % sorted(stats.items()))
     chk.cov.update(evaluations=len(cases), distinct_nontrivial=len(classes), disagreements_checked=ndis, distribution={BASE: len(cases)},
                    rule='random GDL-lite programs: 1-3 passes, uniform pre-context 0..2, 1-6 rules of length <= 5 over a 3-8 glyph alphabet (overlapping sets, so several rules match at a position and sort keys / rule order '
-                        'decide), optional constraint on the advance of one item (also of pre-context items, also on values set by an earlier pass), actions put_glyph / put_subs (with references to earlier, later and own items) / delete / insert / advance / shift, followed by 0-2 positioning passes whose rules attach items to earlier or later items (re-attachment, cycles refused), set attach / with points, shifts and advances; each compiled to a font and run on 6-8 glyph strings of 1-12 glyphs; '
-                        'glyph ids, advances, attachment parents, design-unit origins (x, y) and the segment advance compared with the extracted reference (final positions through the positioning model of C15); non-trivial = distinct (#passes, many rules, output length, uses delete / insert / subs, verdict)',
+                        'decide), optional constraint on the advance of one item (also of pre-context items, also on values set by an earlier pass), actions put_glyph / put_subs / put_copy (with references to earlier, later and own items) / delete / insert / advance / shift / user attributes, constraints on advances or user attributes, followed by 0-2 positioning passes whose rules attach items to earlier or later items (re-attachment, cycles refused), set attach / with points, shifts and advances; each compiled to a font and run on 6-8 glyph strings of 1-12 glyphs; '
+                        'glyph ids, advances, attachment parents, user attributes, design-unit origins (x, y) and the segment advance compared with the extracted reference (final positions through the positioning model of C15); non-trivial = distinct (#passes, many rules, output length, uses delete / insert / subs, verdict)',
                    samples=[mcases[0][:300], mcases[len(mcases) // 2][:300]], exhaustive=False)
 
 
@@ -186,7 +194,9 @@ def replay(chk, obj):
     print(rp.get('program', '')[:400]); print(' impl :', (il[0] or '')[:800]); print(' model:', (ml[0] or '')[:800])
     try:
         d = S.parse_dump(' '.join(il[0].split(' | ')[0].split()[1:]))
-        got = 'adv=%d ' % int(float(d['adv'].split(',')[0])) + ';'.join('%d,%d,%d,%d,%s' % (int(s[0]), int(float(s[10])), int(float(s[8])), int(float(s[9])), s[5]) for s in d['slots'])
+        us = (il[0].split(' | U', 1)[1].split(' | ')[0].split() if ' | U' in il[0] else [])
+        got = 'adv=%d ' % int(float(d['adv'].split(',')[0])) + ';'.join('%d,%d,%d,%d,%s,%s' % (int(s[0]), int(float(s[10])), int(float(s[8])), int(float(s[9])), s[5], (us[k] if k < len(us) else '?').replace(',', '/'))
+                                                                        for k, s in enumerate(d['slots']))
         return 0 if got == ml[0].split(' R ', 1)[1] else 1
     except (ValueError, IndexError, AttributeError):
         return 1
